@@ -47,6 +47,13 @@ def reviewedSites : List (String × String × String) :=
 theorem panic_sites_are_the_reviewed_ones :
     panicSites.map (fun s => (s.file, s.fn, s.kind)) = reviewedSites := by decide
 
+/-- (facts, regenerated from the source on every run) **No function of the packages read is outside every model**: each
+    function of `clover`, `query`, `document`, `index`, `internal`, `util` and the two store adapters (tests and hooks
+    aside) is pinned, text and all, by the `source_decision_logic` theorem of at least one property.  A function added to
+    the source - a new public operation in particular, which C20 quantifies over - breaks this theorem until it has been
+    read, modelled and assigned. -/
+theorem every_function_is_pinned : CV.Facts.logicUnpinned = [] ∧ CV.Facts.logicMissing = [] := by decide
+
 variable (likeFn : LikeFn) (fnFam : FnFam)
 
 /-- (model) the sites that used to panic return results or errors: a negated criterion selects no
